@@ -676,5 +676,167 @@ def r10_message_renders(a, tier):
     return rep
 
 
+def r12_include_cycles(a, tier):
+    import types
+
+    from ..minieval import Raised
+    from ..modelinterp import Bound, Hook, ModelInterp, Stub
+    from ..rules.leftrec import Q
+    rep = RuleReport(
+        'C08.R12',
+        'rule includes have a finite expansion: every traversal of a grammar follows RuleInclude.exp (the parser, the generator, the '
+        'left-recursion analysis, the defined names), so a `>rule` that reaches itself - possible in grammar text through @override - '
+        'recurses without bound. Grammar.initialize (which every way of building a grammar runs: it links the includes, then analyses), '
+        'interpreted on stand-in grammars with the lookahead and left-recursion analyses stubbed out, raises one of TatSu\'s own '
+        'exceptions for every include cycle (self, two and three rules, a cycle closed by a second include) and accepts every acyclic '
+        'arrangement (chain, the same rule included twice, diamond), leaving each include linked to the body of its rule',
+        floor=6,
+    )
+    INC, RULE, GRAM = 'tatsu.peg.rulelike.RuleInclude', 'tatsu.peg.base.Rule', 'tatsu.peg.base.Grammar'
+    fn = a.ct.lookup(GRAM, 'initialize')
+    if fn is None or a.ct.lookup(INC, 'link') is None:
+        raise AnalysisError('C08.R12: Grammar.initialize / RuleInclude.link not found')
+
+    def leafy(stub, kids=()):
+        stub._attrs['children'] = Hook(lambda *x, **k: tuple(kids))
+        stub._attrs['children_list'] = Hook(lambda *x, **k: list(kids))
+        return stub
+
+    def build(spec: dict[str, list[str]]):
+        """spec: rule name -> names it includes (its body is `>n1 >n2 't'`)"""
+        incs, rules = {}, {}
+        for name, names in spec.items():
+            items = []
+            for i, n in enumerate(names):
+                incs[name, i] = leafy(Stub(INC, name=n, _exp=None, ast=n))
+                items.append(incs[name, i])
+            items.append(leafy(Stub(Q['Token'], token='t')))
+            body = leafy(Stub(Q['Sequence'], sequence=items), items)
+            rules[name] = leafy(Stub(RULE, name=name, exp=body, params=(), kwparams={}), [body])
+        gram = leafy(Stub(GRAM, rules=tuple(rules.values())), rules.values())
+        gram._attrs['missing_rules'] = Hook(lambda *x, **k: set())
+        for h in ('_calc_lookahead_sets', '_mark_left_recursion', '_calc_first_sets', '_calc_follow_sets'):
+            gram._attrs[h] = Hook(lambda *x, **k: None)  # the analyses that follow linking are not part of this obligation
+        return gram, incs, rules
+    cases = [
+        ('a includes itself (@override a = >a ...)', {'a': ['a']}, True),
+        ('a includes b, b includes a', {'a': ['b'], 'b': ['a']}, True),
+        ('a -> b -> c -> a', {'a': ['b'], 'b': ['c'], 'c': ['a']}, True),
+        ('a cycle entered from outside: s -> a -> b -> a', {'s': ['a'], 'a': ['b'], 'b': ['a']}, True),
+        ('the second include of a rule closes the cycle', {'a': ['c', 'b'], 'b': ['a'], 'c': []}, True),
+        ('chain a -> b -> c', {'a': ['b'], 'b': ['c'], 'c': []}, False),
+        ('the same rule included twice', {'a': ['c', 'c'], 'c': []}, False),
+        ('diamond a -> b, c -> d', {'a': ['b', 'c'], 'b': ['d'], 'c': ['d'], 'd': []}, False),
+    ]
+    for what, spec, cyclic in cases:
+        gram, incs, rules = build(spec)
+        it = ModelInterp(a, {'weakref': Hook(None, ref=Hook(lambda x, *y: x)), 'id': Hook(id), 'SimpleNamespace': Hook(types.SimpleNamespace)})
+        try:
+            it.call_bound(Bound(gram, fn), [], {})
+            unlinked = [f'>{spec[r][i]} in {r}' for (r, i), inc in incs.items() if inc._attrs.get('_exp') is not rules[spec[r][i]]._attrs['exp']]
+            outcome = 'linked' if not unlinked else f'returns with {unlinked} not linked to the body of the rule'
+        except Raised as r:
+            short = r.cls_name.split('(')[0].split('.')[-1]
+            own = any(q.split('.')[-1] == short and a.ct.is_subclass(q, 'tatsu.exceptions.TatSuException') for q in a.p.classes)
+            outcome = f'raises {short}' + ('' if own else ' (not a TatSu exception)')
+        except Unsupported as e:
+            raise AnalysisError(f'C08.R12: cannot interpret Grammar.initialize ({what}): {e}') from e
+        ok = (outcome.startswith('raises') and not outcome.endswith(')')) if cyclic else outcome == 'linked'
+        rep.add({'includes': what, 'cyclic': cyclic, 'initialize': outcome, 'ok': ok})
+        if not ok:
+            rep.fail(fn.qualname, f'include-cycle:{what}', f'{what}: Grammar.initialize {outcome}; required: ' + (
+                'a TatSu exception - the cycle is otherwise followed without bound by every traversal of the grammar (RecursionError when '
+                'compiling the grammar text)' if cyclic else 'every include linked to the body of its rule, no error (the arrangement is acyclic)'), fn.loc)
+    return rep
+
+
+_PARSE_TIME_CONVERTERS = {
+    # converter -> the exception classes it raises for text the matchers / the grammar language let through
+    'int': ('ValueError',),  # more digits than sys.get_int_max_str_digits()
+    'literal_eval': ('SyntaxError', 'ValueError', 'TypeError'),  # documented for malformed literals; TypeError: unhashable key / set element
+}
+
+
+def r13_input_converters(a, tier):
+    rep = RuleReport(
+        'C08.R13',
+        'text that reaches a converter while PARSING and that Python does not convert is a failed match: in the input layer '
+        '(tatsu/input) and the parse engine (tatsu/contexts) every int() of matched text - the matchers accept any number of digits, '
+        'int() raises ValueError beyond sys.get_int_max_str_digits() - and every literal_eval() of a constant expression (ValueError, '
+        'SyntaxError for malformed text, TypeError for an unhashable key or set element) sits in a try / contextlib.suppress that covers '
+        'those classes and leaves by falling through, returning, or raising a TatSu exception (float() has no digit limit and accepts '
+        'every string of the float matcher; it is listed, not required)',
+        floor=2,
+    )
+    ex = Executor(a.p, a.ct, a.resolver, Semantics())
+    n_req = 0
+
+    def covers(names, e_):
+        return e_ in names or any(p_ in names for p_ in _BUILTIN_EXC_PARENTS.get(e_, ('Exception', 'BaseException')))
+    for f in a.p.functions.values():
+        if not (f.module.name.startswith('tatsu.input.') or f.module.name.startswith('tatsu.contexts.')):
+            continue
+        pm = a.resolver.parents(f)
+        for n in walk_no_defs(f.node):
+            if not (isinstance(n, ast.Call) and n.args):
+                continue
+            key = dotted(n.func).split('.')[-1] if isinstance(n.func, (ast.Name, ast.Attribute)) else ''
+            if key not in ('int', 'float', 'literal_eval') or (key != 'literal_eval' and not isinstance(n.func, ast.Name)):
+                continue
+            arg = n.args[0]
+            if isinstance(arg, ast.Constant) or isinstance(arg, (ast.BinOp, ast.Compare, ast.BoolOp)):
+                continue  # a number computed from lengths / positions, not text
+            if isinstance(arg, ast.Call) and dotted(arg.func) in ('max', 'min', 'len', 'repr', 'round', 'abs'):
+                continue
+            need = _PARSE_TIME_CONVERTERS.get(key, ())
+            covered: set[str] = set()
+            why = ''
+            cur: ast.AST = n
+            while id(cur) in pm:
+                par = pm[id(cur)]
+                inside_body = isinstance(par, (ast.Try, ast.With)) and any(cur is s_ or any(x is cur for x in ast.walk(s_)) for s_ in par.body)
+                if isinstance(par, ast.With) and inside_body:
+                    for item in par.items:
+                        c = item.context_expr
+                        if isinstance(c, ast.Call) and dotted(c.func).split('.')[-1] == 'suppress':
+                            names = [norm(x) for x in c.args]
+                            covered |= {e_ for e_ in need if covers(names, e_)}
+                if isinstance(par, ast.Try) and inside_body:
+                    for h in par.handlers:
+                        names = ['BaseException'] if h.type is None else [norm(t) for t in (h.type.elts if isinstance(h.type, ast.Tuple) else [h.type])]
+                        hit = {e_ for e_ in need if covers(names, e_)} - covered
+                        if not hit:
+                            continue
+                        raises = [x for x in ast.walk(h) if isinstance(x, ast.Raise)]
+                        foreign = [x for x in raises if x.exc is None or 'tatsu.exceptions' not in str(ex.raise_token(f, x.exc, None, {}).bound)]
+                        if foreign:
+                            why = f'; the handler for {sorted(hit)} raises an exception that is not TatSu\'s own'
+                        else:
+                            covered |= hit
+                cur = par
+            missing = [e_ for e_ in need if e_ not in covered]
+            n_req += bool(need)
+            rep.add({'function': f.qualname, 'conversion': norm(n)[:60], 'can_raise': list(need), 'all_covered': not missing})
+            for e_ in missing:
+                rep.fail(f.qualname, f'unguarded-parse-time:{key}:{e_}', f'`{norm(n)[:60]}` converts text at parse time and no enclosing try / suppress turns its {e_} '
+                         f'into a failed match{why}: parse() lets a {e_} escape (int: a run of more digits than Python converts, 4300 by default; '
+                         f'literal_eval: a constant such as `{{[1]: 2}}`)', f'{f.module.relpath}:{n.lineno}')
+    if n_req < 2:
+        raise AnalysisError('C08.R13: the int() of matched text in tatsu/input and the literal_eval() of constants in tatsu/contexts were not both found (anchor moved)')
+    return rep
+
+
+def r11_line_index(a, tier):
+    """the position a failure carries is turned into line, column and source line by the line index: the clause "whose line, column and
+    source line agree with it" is the line-index rule of C12"""
+    from . import c12
+    rep = c12.r3_line_index_exhaustive(a, tier)
+    rep.rule = 'C08.R11'
+    for f in rep.findings:
+        f.rule = 'C08.R11'
+    rep.text = '[= C12.R3] ' + rep.text
+    return rep
+
+
 RULES = [r1_one_factory, r2_sentinels, r3_cache_guards, r4_check_before_use, r5_progress, r6_scanner_bounds, r7_operand_coverage,
-         r8_eat_loops_terminate, r9_converters_guarded, r10_message_renders]
+         r8_eat_loops_terminate, r9_converters_guarded, r10_message_renders, r11_line_index, r12_include_cycles, r13_input_converters]
